@@ -348,3 +348,8 @@ N('benign.entry-points-delegate', [(P + 'common/parse.py', "    def parse_mutabl
                                      "    def parse_mutable(cls, parsable):\n        parsed_object, parsed_length = cls.parse_immutable(parsable)\n"),
                                     (P + 'common/parse.py', "    def parse_exact_size(cls, parsable):\n        parsed_object, parsed_length = cls._parse(parsable)\n        if len(parsable) > parsed_length:\n",
                                      "    def parse_exact_size(cls, parsable):\n        parsed_object, parsed_length = cls.parse_immutable(parsable)\n        has_trailing_data = len(parsable) > parsed_length\n        if has_trailing_data:\n")])
+B('C03.parse-parsable-advance-without-prefix', ['C03'], [(P + 'common/parse.py', "            parsed_length = item_size + parsable_length\n", "            parsed_length = parsable_length\n")], mention=['C03.R4'])
+B('C02.mpint-sign-octet-before-availability-check', ['C02'], [(P + 'common/parse.py',
+  "        if mpint_length > self.unparsed_length - 4:\n            raise NotEnoughData(bytes_needed=mpint_length + 4 - self.unparsed_length)\n\n        negative = (mpint_length and (six.indexbytes(self._parsable, self._parsed_length + 4) >= 0x80))\n",
+  "        negative = (mpint_length and (six.indexbytes(self._parsable, self._parsed_length + 4) >= 0x80))\n\n        if mpint_length > self.unparsed_length - 4:\n            raise NotEnoughData(bytes_needed=mpint_length + 4 - self.unparsed_length)\n")], mention=['IndexError'])
+B('C08.name-without-root-label', ['C01', 'C08'], [(P + 'dnsrec/record.py', "            composer.compose_string(label, 'idna', 1)\n\n        composer.compose_numeric(0, 1)\n", "            composer.compose_string(label, 'idna', 1)\n")], mention=['codec'])
